@@ -91,3 +91,8 @@ claim("C16",
       "exhaustive enumeration of DMA source pages, restart cycles and source-rewrite cycles on the real Mapper/OAM with every cycle of every transfer observed",
       "Every source page 00-F1 (cartridge RAM enabled and disabled) is transferred on an MBC1+RAM cartridge whose ROM, VRAM, cartridge RAM and WRAM hold position-dependent bytes: after every machine cycle FE00, FE9F, FEA0 and FEFF must read FF until the transfer completes, completion must come within 162 cycles, and OAM must then equal the 160 source bytes (E0-F1 through the work-RAM mirror). A second FF46 write is issued after every cycle 1-162 (page pairs from {00,80,C0,DF,E0,F1}), and one source byte is rewritten after every cycle 1-165 for six byte indices, where OAM must hold the byte as it was when copied.",
       "Completion is observed through FEA0. A source rewrite within one cycle of the byte's copy cycle accepts either value.")
+
+claim("C17",
+      "exhaustive enumeration of LCD switch-off points x pointer placements x short pointer-moving programs on the real CPU+PPU+OAM, differential against plain-memory OAM driven by the reference CPU",
+      "OAM is filled by DMA with 20 distinct rows; at every cycle 0-113 of lines 0, 1, 143, 144 and 153 the LCD is switched off (hence in every mode and at every point of mode 2), or switched off-on-off, or left on outside mode 2; from a snapshot at that point every program of length 1 (thorough 2; length 2/3 on line 1) over 23 instructions that move or dereference BC/DE/HL/SP is run with every pointer in {FDFF,FE00,FE08,FE50,FE98,FE9F,FEA0,FEFF,FF00}; afterwards OAM must equal plain memory updated only by the reference CPU's writes into FE00-FE9F.",
+      "With the LCD on, runs that touch mode 2 are not judged. Programs are straight-line; DMA is covered by C16.")
